@@ -623,6 +623,32 @@ func RunCrashScenario(sc *Scenario) (vd *Verdict) {
 				}
 			}
 			mgmt = true
+		case "setPublicNamespaces":
+			// the way a client changes a dataset's public namespaces (also to none): it stores the dataset's
+			// meta-entity, with the new list, in core.Dataset
+			mgmt = true
+			if r.H.Dataset(op.DS) != nil {
+				info, err := r.H.Store.NamespaceManager.GetDatasetNamespaceInfo()
+				if err == nil {
+					me, err := r.H.Store.GetEntity(info.DatasetPrefix+":"+op.DS, []string{"core.Dataset"}, true)
+					if err == nil && me != nil {
+						l := []interface{}{}
+						var pub []string
+						for _, x := range op.A {
+							l = append(l, x)
+							pub = append(pub, fmt.Sprint(x))
+						}
+						me.Properties[info.PublicNamespacesKey] = l
+						werr = r.H.Dataset("core.Dataset").StoreEntities([]*server.Entity{me})
+						if werr == nil {
+							st := r.settings[op.DS]
+							st.Public = pub
+							r.settings[op.DS] = st
+							r.Stats["public_namespaces_set"]++
+						}
+					}
+				}
+			}
 		case "renameDataset":
 			_, werr = r.H.Dsm.UpdateDataset(op.DS, &server.UpdateDatasetConfig{ID: op.DS2})
 			if werr == nil {
